@@ -176,20 +176,27 @@ changes and queries on the cached object; `…SpecRun` answers every query from 
 current tables (`rescSpec` = what a freshly built object answers).  The statements are generic in
 the scalar type: they also hold for the `Float` instance the driver runs. -/
 
-/-- rescaled class: in every history in which no call raised, each answer (log-likelihood,
-posterior matrix, first and second derivative) is the answer of a fresh object with the current parameter
-values and break points.  (`d1 ""`, `d2 ""` are excluded: the empty name is the cache's "nothing cached" marker.) -/
+/-- rescaled class: in every history in which no call raised, each answer (log-likelihood, posterior
+matrix written to an empty vector / over a vector / appended to a vector, posterior of one position,
+likelihood of one position and of every position, first and second derivative, and the per-position
+derivative terms for the variable of the last derivative query) is the answer of a fresh object with the
+current parameter values and break points.  (`d1 ""`, `d2 ""` are excluded: the empty name is the cache's
+"nothing cached" marker; `derivNamesOk`: the per-position derivative accessors, which have no variable
+argument, are asked only after a derivative query that followed the last update.) -/
 theorem history_independent {α : Type} [Scalar α] (t : Tables α) (o : RescObj α) (hb : RescObj.build t = some o)
-    (ops : List (Op α)) (hne : ∀ a ∈ o.run ops, a ≠ Ans.exc) (hvar : ∀ op ∈ ops, op ≠ Op.d1 "" ∧ op ≠ Op.d2 "") :
-    o.run ops = rescSpecRun t [] ops := by
-  obtain ⟨hc, ht, hbp⟩ := RescObj.build_consistent t o hb
-  rw [RescObj.run_spec o hc ops hne hvar, ht, hbp]
+    (ops : List (Op α)) (hne : ∀ a ∈ o.run ops, a ≠ Ans.exc) (hvar : ∀ op ∈ ops, op ≠ Op.d1 "" ∧ op ≠ Op.d2 "")
+    (hnm : derivNamesOk "" "" ops = true) :
+    o.run ops = rescSpecRun t [] "" "" ops := by
+  obtain ⟨hc, ht, hbp, hd, hd2⟩ := RescObj.build_consistent t o hb
+  rw [RescObj.run_spec o hc ops hne hvar (by rw [hd, hd2]; exact hnm), ht, hbp, hd, hd2]
 
-/-- log-sum class (log-likelihood and posteriors; its derivatives are not modelled) -/
-theorem history_independent_logsum {α : Type} [Scalar α] (t : Tables α) (ops : List (Op α)) :
-    (LogObj.build t).run ops = logSpecRun t [] ops := by
-  obtain ⟨hc, ht, hbp⟩ := LogObj.build_consistent t
-  rw [LogObj.run_spec _ hc ops, ht, hbp]
+/-- log-sum class, with its derivative recursions -/
+theorem history_independent_logsum {α : Type} [Scalar α] [HasIsInf α] (t : Tables α) (ops : List (Op α))
+    (hne : ∀ a ∈ (LogObj.build t).run ops, a ≠ Ans.exc) (hvar : ∀ op ∈ ops, op ≠ Op.d1 "" ∧ op ≠ Op.d2 "")
+    (hnm : derivNamesOk "" "" ops = true) :
+    (LogObj.build t).run ops = logSpecRun t [] "" "" ops := by
+  obtain ⟨hc, ht, hbp, hd, hd2⟩ := LogObj.build_consistent t
+  rw [LogObj.run_spec _ hc ops hne hvar (by rw [hd, hd2]; exact hnm), ht, hbp, hd, hd2]
 
 /-- low-memory class -/
 theorem history_independent_lowmem {α : Type} [Scalar α] (t : Tables α) (maxSize : Nat) (o : LowObj α)
@@ -215,7 +222,7 @@ theorem history_dependent_after_exception :
   have h1 : transOk t1.p = false := by decide
   have hb0 : rescCompute t0 [] = some (rescForward t0.p t0.e0 (mkSites t0.es [])) := by simp [rescCompute, h0]
   have hb1 : ∀ bps, rescCompute t1 bps = none := by intro bps; simp [rescCompute, h1]
-  refine ⟨(RescObj.mk t0 [] (rescForward t0.p t0.e0 (mkSites t0.es [])) [] false "" emptyD "" Scalar.zero),
+  refine ⟨(RescObj.mk t0 [] (rescForward t0.p t0.e0 (mkSites t0.es [])) [] false "" emptyD "" emptyD2),
     by simp only [RescObj.build, hb0, Option.map_some], ?_, ?_, ?_⟩
   · simp only [RescObj.step, hb1]
   · simp only [RescObj.step, hb1]
